@@ -12,6 +12,7 @@ import (
 	"github.com/ipni/go-libipni/announce"
 	"github.com/ipni/go-libipni/announce/message"
 	"github.com/ipni/go-libipni/announce/p2psender"
+	pubsub "github.com/libp2p/go-libp2p-pubsub"
 	"github.com/libp2p/go-libp2p/core/host"
 	"github.com/libp2p/go-libp2p/core/peer"
 	"github.com/multiformats/go-multiaddr"
@@ -129,6 +130,7 @@ func runC16(c *vf.Ctx) {
 	c16Concurrent(c)
 	c16HostNoTopic(c)
 	c16Blocked(c)
+	c16Resend(c)
 	c16Callback(c)
 	c16Pubsub(c)
 }
@@ -729,5 +731,120 @@ func c16Pubsub(c *vf.Ctx) {
 		}
 		c.Eval(1)
 		c.Distinct(sub, fmt.Sprint(i))
+	}
+}
+
+// c16Resend: a receiver that republishes direct announcements on its topic, on a host that has no topic peers at all.
+// Direct calls with contexts that are never cancelled return (the announcement is delivered to the consumer), also
+// when Close races with them.
+func c16Resend(c *vf.Ctx) {
+	const sub = "resend-without-topic-peers"
+	if !c.Active(sub) {
+		return
+	}
+	n := c.N(16, 600)
+	pid := Keys()["ed25519"][1].ID
+	for i := 0; i < n; i++ {
+		if !c.Mine(sub, i) || c16TooManyHangs() {
+			continue
+		}
+		r := c.Rand(sub, i)
+		own := r.Intn(2) == 0
+		racing := 1 + r.Intn(3)
+		desc := fmt.Sprintf("receiver-creates-its-topic=%v direct-calls-racing-with-close=%d", own, racing)
+		c.Cur(sub, i, desc)
+		wit := func() any { return map[string]any{"scenario": desc} }
+		h, err := newHost()
+		if err != nil {
+			c.Inconclusive(sub, i, "host-create", err.Error(), nil)
+			continue
+		}
+		topicName := fmt.Sprintf("/verif/c16r/%d/%d", c.Seed, i)
+		var rc *announce.Receiver
+		cancelPS := func() {}
+		if own {
+			rc, err = announce.NewReceiver(h, topicName, announce.WithResend(true))
+		} else {
+			var topics []*pubsub.Topic
+			topics, cancelPS, err = meshTopics([]host.Host{h}, topicName)
+			if err == nil {
+				rc, err = announce.NewReceiver(h, topicName, announce.WithTopic(topics[0]), announce.WithResend(true))
+			}
+		}
+		if err != nil {
+			c.Fail(sub, i, "receiver-create-error", err.Error(), wit())
+			cancelPS()
+			h.Close()
+			continue
+		}
+		col := collect(rc)
+		direct := func(k int) (vf.Verdict, string, error) {
+			var derr error
+			v, dump := vf.Watch(c16Watchdog, func() {
+				derr = rc.Direct(context.Background(), c09Cid(900000+100*i+k), peer.AddrInfo{ID: pid, Addrs: []multiaddr.Multiaddr{c09Marker(k)}})
+			})
+			return v, dump, derr
+		}
+		report := func(what string, v vf.Verdict, dump string) bool {
+			if v == vf.Returned {
+				return true
+			}
+			c16Hangs.Add(1)
+			if v == vf.Hung {
+				c.Fail(sub, i, "hang:"+what+":"+vf.LibFrame(dump), dump, wit())
+			} else {
+				c.Inconclusive(sub, i, "did-not-return:"+what, dump, wit())
+			}
+			return false
+		}
+		ok := true
+		// a direct announcement while nobody else is on the topic
+		if v, dump, derr := direct(0); !report("Direct-with-resend-and-no-topic-peers", v, dump) {
+			ok = false
+		} else if derr != nil {
+			c.Fail(sub, i, "direct-unexpected-error", derr.Error(), wit())
+			ok = false
+		} else if _, got := waitFor(col, 20*time.Second, func(a announce.Announce) bool { return a.Cid.Equals(c09Cid(900000 + 100*i)) }); !got {
+			c.Fail(sub, i, "direct-announcement-not-delivered", "", wit())
+			ok = false
+		}
+		if ok {
+			var wg sync.WaitGroup
+			var mu sync.Mutex
+			for k := 1; k <= racing; k++ {
+				wg.Add(1)
+				go func(k int) {
+					defer wg.Done()
+					v, dump, derr := direct(k)
+					mu.Lock()
+					defer mu.Unlock()
+					if !report("Direct-racing-with-Close", v, dump) {
+						ok = false
+					} else if derr != nil && !errors.Is(derr, announce.ErrClosed) {
+						c.Fail(sub, i, "direct-unexpected-error", derr.Error(), wit())
+					}
+				}(k)
+			}
+			time.Sleep(time.Duration(r.Intn(1500)) * time.Microsecond)
+			v, dump := vf.Watch(c16Watchdog, func() { _ = rc.Close() })
+			wg.Wait()
+			mu.Lock()
+			if !report("Close", v, dump) {
+				ok = false
+			}
+			mu.Unlock()
+		}
+		if !ok {
+			// (leave the stuck receiver alone; the host goes away with its goroutines)
+			cancelPS()
+			h.Close()
+			continue
+		}
+		rc.Close()
+		cancelPS()
+		h.Close()
+		c.Eval(1)
+		c.Inc("resend_receivers_without_topic_peers")
+		c.Distinct(sub, desc)
 	}
 }
